@@ -38,6 +38,13 @@ type vEnv struct {
 	resultErr  bool
 	hasCancel  bool
 	lazy       bool // behaviours are chosen when the stub is reached
+	deployModes int // number of deploy behaviours offered (default 3)
+	atpCloseErr bool
+	plugCloseErr bool
+	execStartT  int64
+	sawSignal bool
+	ignoreSignal bool // the plugin does not react to the cancel signal
+	closeFaults bool // Close() of the ATP client / the plugin may fail
 
 	deployments int
 	plugins     []*vPlugin
@@ -68,6 +75,9 @@ func (p *vPlugin) Write(b []byte) (int, error) { return len(b), nil }
 func (p *vPlugin) Close() error {
 	verifrt.Yield("plugin.Close")
 	verifAtomicPluginClose(p)
+	if p.env.closeFaults && verifrt.Choice("plugin.Close fails", 2) == 1 {
+		return &verifrt.Err{Msg: "plugin close failed"}
+	}
 	return nil
 }
 func (p *vPlugin) ID() string { return "container-1" }
@@ -83,7 +93,11 @@ func verifAtomicDeployed(e *vEnv) *vPlugin {
 
 func (c *vConnector) Deploy(ctx context.Context, src string) (deployer.Plugin, error) {
 	if c.env.lazy {
-		c.env.deployMode = verifrt.Choice("deployMode", 3)
+		n := c.env.deployModes
+		if n == 0 {
+			n = 3
+		}
+		c.env.deployMode = verifrt.Choice("deployMode", n)
 	}
 	switch c.env.deployMode {
 	case 1:
@@ -128,6 +142,8 @@ func verifAtomicExecEnter(e *vEnv) {
 	e.h.execAt = len(e.h.events)
 }
 
+func verifAtomicSignalled(e *vEnv) { e.sawSignal = true }
+
 func verifAtomicExecLeave(e *vEnv, signalled bool) {
 	e.execLive--
 	if signalled {
@@ -151,6 +167,10 @@ func (a *vATP) Execute(input schema.Input, toStep <-chan schema.Input, fromStep 
 		select {
 		case _, ok := <-toStep:
 			signalled = ok
+			if ok && a.env.ignoreSignal {
+				verifAtomicSignalled(a.env)
+				<-a.p.closedCh
+			}
 		case <-a.p.closedCh:
 		}
 	}
@@ -160,7 +180,12 @@ func (a *vATP) Execute(input schema.Input, toStep <-chan schema.Input, fromStep 
 	}
 	return atp.ExecutionResult{OutputID: a.env.resultID, OutputData: any(verifrt.NondetVal("result"))}
 }
-func (a *vATP) Close() error           { return nil }
+func (a *vATP) Close() error {
+	if a.env.closeFaults && verifrt.Choice("atp.Close fails", 2) == 1 {
+		return &verifrt.Err{Msg: "client done message could not be written"}
+	}
+	return nil
+}
 func (a *vATP) Encoder() *cbor.Encoder { return nil }
 func (a *vATP) Decoder() *cbor.Decoder { return nil }
 
